@@ -77,6 +77,15 @@ def parse_vspec(path):
         line = raw.strip()
         if not line or line.startswith("//"):
             continue
+        m = re.match(r"^include\s+(\S+)\s*$", line)
+        if m and cur is None and not raw.startswith((" ", "\t")):
+            # `include ../<unit>/contracts.vspec`: the blocks of another unit's contract file are emitted (and verified)
+            # here as well, in place - callee contracts are shared between units as ONE text instead of being copied
+            inc = os.path.normpath(os.path.join(os.path.dirname(path), m.group(1)))
+            if not os.path.exists(inc):
+                raise ValueError(f"{path}:{ln}: include file not found: {inc}")
+            specs.extend(parse_vspec(inc))
+            continue
         m = re.match(r"^fn\s+(\S+)(?:\s+in\s+(\S+))?(?:\s+trait\s+(\S+))?(?:\s+as\s+(\S+))?\s*$", line)
         if m and not raw.startswith((" ", "\t")):
             cur = FnSpec(key=m.group(1), infile=m.group(2), trait=m.group(3), rename=m.group(4))
@@ -113,10 +122,11 @@ def parse_vspec(path):
             target = cur.loops.setdefault(int(m.group(1)), LoopSpec())
             section = None
             continue
-        m = re.match(r'^at\s+end(?:\s+\[([A-Za-z0-9_.\-]+)\])?$', line)
+        m = re.match(r'^at\s+(end|start)(?:\s+\[([A-Za-z0-9_.\-]+)\])?$', line)
         if m:
-            # proof hint placed before the closing brace of the function body (bodies ending in a statement only)
-            a = AtSpec(None, 1, "end", label=m.group(1) or "")
+            # proof hint placed before the closing brace of the function body (bodies ending in a statement only),
+            # or (`at start`) right after the opening brace of the body: needs no source anchor, so it cannot be lost
+            a = AtSpec(None, 1, m.group(1), label=m.group(2) or "")
             cur.ats.append(a)
             section = ("at", a)
             continue
@@ -400,6 +410,12 @@ class Unit:
         text, nfor = X.r7_forlabel(text); self._log("R7-forlabel", fnkey, nfor)
         # 'at' insertions (proof hints) — anchors are source fragments; a lost anchor is undecided
         for a in sp.ats:
+            if a.where == "start":
+                st0 = sig(lex(text))
+                _, _, bo0 = _find_body_open(st0)
+                p0 = st0[bo0].end
+                text = text[:p0] + "\n" + "\n".join(f"{tl} /*@hint:{a.label}@*/" for tl in a.text) + text[p0:]
+                continue
             if a.where == "end":
                 le = text.rstrip().rfind("}")
                 text = text[:le].rstrip(" ") + "\n".join(f"{tl} /*@hint:{a.label}@*/" for tl in a.text) + "\n" + text[le:]
